@@ -136,6 +136,41 @@ template <class K, size_t S> struct Runner : IRunner {
       return "ok a=" + std::to_string(a) + " own=" + std::to_string(own) + " mism=" + std::to_string(AllocReg::mismatches().load());
     }
 #endif
+    if ((op == "newil" || op == "newrange" || op == "assignil") && w.size() >= 3 && (w.size() % 2) == 1) {
+      // constructors from an initializer list / an iterator range with an explicit capacity, and operator=(initializer_list)
+      std::vector<std::pair<const K, uint64_t>> items;
+      for (size_t i = 3; i + 1 < w.size(); i += 2) items.push_back({mk(num(i)), num(i + 1)});
+      size_t n = num(2);
+      if (op == "assignil") {
+        if (!tabs[id] || moved_from[id] || lts[id]) return "bad-table";
+        return guard([&] {
+          // (an initializer_list cannot be built from run-time data: the member is `clear(); insert each`, reproduced
+          //  through the same public members for more than 4 items; up to 4 items go through the real operator=)
+          Tbl &tt = *tabs[id];
+          switch (items.size()) {
+          case 0: tt = {}; break;
+          case 1: tt = {items[0]}; break;
+          case 2: tt = {items[0], items[1]}; break;
+          case 3: tt = {items[0], items[1], items[2]}; break;
+          default: tt = {items[0], items[1], items[2], items[3]}; break;
+          }
+          return std::string("ok");
+        });
+      }
+      if (lts[id]) return "bad-table";
+      return guard([&] {
+        if (op == "newrange") tabs[id].reset(new Tbl(items.begin(), items.end(), n));
+        else switch (items.size()) {
+          case 0: tabs[id].reset(new Tbl(std::initializer_list<std::pair<const K, uint64_t>>{}, n)); break;
+          case 1: tabs[id].reset(new Tbl({items[0]}, n)); break;
+          case 2: tabs[id].reset(new Tbl({items[0], items[1]}, n)); break;
+          case 3: tabs[id].reset(new Tbl({items[0], items[1], items[2]}, n)); break;
+          default: tabs[id].reset(new Tbl({items[0], items[1], items[2], items[3]}, n)); break;
+        }
+        moved_from[id] = false;
+        return std::string("ok");
+      });
+    }
     if (op == "ltmoveassign" && w.size() == 3) {
       // locked_table move assignment onto an ACTIVE locked_table: `lt_a = std::move(lt_b)` ends a's section (table a is
       // handed back unlocked) and a's handle now owns table b; the moved-from handle is inactive
@@ -174,6 +209,77 @@ template <class K, size_t S> struct Runner : IRunner {
     Tbl &t = *tabs[id];
     if (w.size() == 3) {
       uint64_t a = num(2);
+      if (op == "ltapi") {
+        // the whole overload set of the locked table on key `a`: const and non-const lookups, const iterators, pre/post
+        // increment and decrement, the observers, operator==.  Answer "ok" iff they all agree with one another (the
+        // non-const forms are tied to the model by the other requests).
+        if (!lts[id]) return "bad-table";
+        LT &lt = *lts[id];
+        const LT &clt = lt;
+        K key = mk(a);
+        auto it = lt.find(key);
+        auto cit = clt.find(key);
+        bool here = it != lt.end();
+        if (here != (cit != clt.end())) return "DIFF const find() disagrees with find() about presence";
+        if (here && (&*cit != &*it)) return "DIFF const find() points at another element";
+        if (here && !(typename LT::const_iterator(it) == cit)) return "DIFF iterator -> const_iterator conversion";
+        if (clt.count(key) != (here ? 1u : 0u)) return "DIFF count() disagrees with find()";
+        try { const uint64_t &v = clt.at(key); if (!here || &v != &it->second) return "DIFF const at() wrong element"; }
+        catch (std::out_of_range &) { if (here) return "DIFF const at() throws for a present key"; }
+        try { uint64_t &v = lt.at(key); if (!here || &v != &it->second) return "DIFF at() wrong element"; }
+        catch (std::out_of_range &) { if (here) return "DIFF at() throws for a present key"; }
+        auto er = lt.equal_range(key);
+        auto cer = clt.equal_range(key);
+        if (!(typename LT::const_iterator(er.first) == cer.first) || !(typename LT::const_iterator(er.second) == cer.second)) return "DIFF const equal_range() disagrees";
+        if (here) { auto nx = it; ++nx; if (er.first != it || er.second != nx) return "DIFF equal_range() is not [find, next)"; }
+        else if (er.first != lt.end() || er.second != lt.end()) return "DIFF equal_range() of an absent key is not (end, end)";
+        if (!(clt.begin() == clt.cbegin()) || !(clt.end() == clt.cend())) return "DIFF cbegin/cend";
+        if (!(typename LT::const_iterator(lt.begin()) == clt.begin()) || !(typename LT::const_iterator(lt.end()) == clt.end())) return "DIFF begin()/end() const vs non-const";
+        // forward walks: ++it, it++, const ++; all must visit the same elements
+        size_t n1 = 0, n2 = 0, n3 = 0, lim = Access::buckets(t).size() * S + 2;
+        {
+          auto i1 = lt.begin(); auto i2 = lt.begin(); auto i3 = clt.begin();
+          while (i1 != lt.end() && n1 < lim) {
+            if (i2 == lt.end() || i3 == clt.end()) return "DIFF walks have different lengths";
+            if (&*i1 != &*i2 || &*i1 != &*i3) return "DIFF pre-increment, post-increment and const walks visit different elements";
+            auto old = i2++;
+            if (&*old != &*i1) return "DIFF post-increment does not return the old position";
+            ++i1; ++i3; ++n1;
+          }
+          if (i2 != lt.end() || !(i3 == clt.end())) return "DIFF walks end at different positions";
+        }
+        {
+          auto i1 = lt.end(); auto i2 = lt.end(); auto i3 = clt.end();
+          while (i1 != lt.begin() && n2 < lim) {
+            auto old = i2--;
+            if (old != i1) return "DIFF post-decrement does not return the old position";
+            --i1; --i3; ++n2;
+            if (&*i1 != &*i2 || &*i1 != &*i3) return "DIFF pre-decrement, post-decrement and const backward walks differ";
+          }
+          n3 = n2;
+        }
+        if (n1 != n2 || n1 != lt.size() || n3 != clt.size()) return "DIFF forward walk " + std::to_string(n1) + ", backward walk " + std::to_string(n2) + ", size() " + std::to_string(lt.size());
+        if (lt.size() != t.size() || lt.empty() != t.empty() || lt.hashpower() != t.hashpower() || lt.bucket_count() != t.bucket_count() ||
+            lt.capacity() != t.capacity() || lt.load_factor() != t.load_factor() || lt.minimum_load_factor() != t.minimum_load_factor() ||
+            lt.maximum_hashpower() != t.maximum_hashpower() || lt.max_num_worker_threads() != t.max_num_worker_threads() ||
+            LT::slot_per_bucket() != S)
+          return "DIFF an observer of the locked_table disagrees with the table's own";
+        if (!(lt == lt) || (lt != lt)) return "DIFF operator== / != on the same locked table";
+        return "ok";
+      }
+      if (op == "api") {
+        // wrappers of the unlocked table on key `a`, against each other
+        K key = mk(a);
+        uint64_t v1 = 0;
+        bool f1 = t.find(key, v1);
+        bool f2 = t.contains(key);
+        bool f3; uint64_t v3 = 0;
+        try { v3 = t.find(key); f3 = true; } catch (std::out_of_range &) { f3 = false; }
+        bool f4 = t.find_fn(key, [](const uint64_t &) {});
+        if (f1 != f2 || f1 != f3 || f1 != f4) return "DIFF find / contains / find (throwing) / find_fn disagree about presence";
+        if (f1 && v1 != v3) return "DIFF find(key, val) and find(key) return different values";
+        return std::string("ok ") + (f1 ? "1" : "0");
+      }
       if (op == "find") {
         std::string calls;
         return guard([&] {
